@@ -552,6 +552,10 @@ func (se *SpecEnv) index(x *SIndex) (Value, types.Type) {
 		se.fail(x, "index of %T", cv)
 	}
 	iv, it := se.eval(x.I)
+	if sa, ok := ct.(*SpecArr); ok {
+		k := se.materialize(iv, Sym("x", vc.SortOf(sa.K)), it)
+		return Select(c, k), sa.V
+	}
 	switch u := types.Unalias(ct).Underlying().(type) {
 	case *types.Map:
 		k := se.materialize(iv, Sym("x", vc.SortOf(u.Key())), it)
@@ -619,6 +623,27 @@ func (se *SpecEnv) callExpr(x *SCall) (Value, types.Type) {
 				se.fail(x, "unknown type %s", tn)
 			}
 			return And(Not(Eq(v, IntLit(0))), Eq(vc.TypeOf(v), vc.TypeTag(t))), boolT
+		case "dom", "vals":
+			v, t := se.evalTerm(x.Args[0])
+			mt, ok := types.Unalias(t).Underlying().(*types.Map)
+			if !ok {
+				se.fail(x, "%s() of non-map type %s", id.Name, t)
+			}
+			if id.Name == "dom" {
+				return se.ex.mapDom(se.cur, mt, v), &SpecArr{mt.Key(), types.Typ[types.Bool]}
+			}
+			return se.ex.mapVal(se.cur, mt, v), &SpecArr{mt.Key(), mt.Elem()}
+		case "upd":
+			av, at := se.evalTerm(x.Args[0])
+			sa, ok := at.(*SpecArr)
+			if !ok {
+				se.fail(x, "upd() needs an arr value")
+			}
+			kv, kt := se.eval(x.Args[1])
+			k := se.materialize(kv, Sym("x", vc.SortOf(sa.K)), kt)
+			vv, vt := se.eval(x.Args[2])
+			val := se.materialize(vv, Sym("x", vc.SortOf(sa.V)), vt)
+			return Store(av, k, val), at
 		case "fs_exists":
 			v, _ := se.evalTerm(x.Args[0])
 			return Select(se.ex.comp(se.cur, "GH.fs.exists", ArraySort(SStr, SBool)), v), boolT
